@@ -280,6 +280,90 @@ Section OnStructSound.
   Qed.
 End OnStructSound.
 
+(* ---------- a struct with plain members and flattened fragment structs, soundness direction *)
+Section MixedStructSound.
+  Variables (D Dh : rtype -> json -> option rvalue) (env : list ritem).
+
+  Definition flat_plain (fd : rfield) : Prop :=
+    f_flatten fd = true ->
+    exists n a b c tf, strip_box (f_ty fd) = RNamed n /\ find_item n env = Some (IStruct a b c tf) /\ existsb f_flatten tf = false.
+
+  Lemma serve_mixed_inv seen rest : forall fields,
+    (forall fd, In fd fields -> flat_plain fd) ->
+    NoDup (flat_map (names_of env) fields) ->
+    forall N, (forall k, In k (flat_map (names_of env) fields) -> ~ In k N) ->
+    is_some (serve D env seen fields (keys_out N rest)) = true ->
+    forall fd, In fd fields ->
+      if f_flatten fd
+      then forall n a b c tf, strip_box (f_ty fd) = RNamed n -> find_item n env = Some (IStruct a b c tf) ->
+             is_some (D (RNamed n) (JObj (keys_in (map field_wire tf) rest))) = true
+      else field_value seen fd <> None.
+  Proof.
+    induction fields as [|g more IH]; intros Hshape Hnd N HN Hacc fd Hfd; [destruct Hfd|].
+    cbn [serve] in Hacc. cbn [flat_map] in Hnd, HN. apply NoDup_app_iff in Hnd. destruct Hnd as [Hn1 [Hn2 Hdis]].
+    destruct (f_flatten g) eqn:Eg.
+    - destruct (Hshape g (or_introl eq_refl) Eg) as [n [a [b [c [tf [Hty [Hfi Hnf]]]]]]].
+      rewrite Hty, Hfi, Hnf in Hacc.
+      assert (Hnames : names_of env g = map field_wire tf) by (unfold names_of; rewrite Eg, Hty, Hfi; reflexivity).
+      rewrite keys_in_out_disjoint in Hacc; [|intros k Hk; apply HN; apply in_or_app; left; rewrite Hnames; exact Hk].
+      destruct (D (RNamed n) (JObj (keys_in (map field_wire tf) rest))) as [v|] eqn:Ed; [|discriminate].
+      rewrite keys_out_app in Hacc.
+      destruct (serve D env seen more (keys_out (N ++ map field_wire tf) rest)) as [vs|] eqn:Es; [|discriminate].
+      destruct Hfd as [<-|Hfd].
+      + rewrite Eg. intros n' a' b' c' tf' Hty' Hfi'. rewrite Hty in Hty'. inversion Hty'; subst n'.
+        rewrite Hfi in Hfi'. inversion Hfi'; subst. rewrite Ed. reflexivity.
+      + apply (IH (fun x Hx => Hshape x (or_intror Hx)) Hn2 (N ++ map field_wire tf)); [|rewrite Es; reflexivity|exact Hfd].
+        intros k Hk Hin. apply in_app_or in Hin. destruct Hin as [Hin|Hin].
+        * apply (HN k); [apply in_or_app; right; exact Hk|exact Hin].
+        * apply (Hdis k); [rewrite Hnames; exact Hin|exact Hk].
+    - destruct (field_value seen g) as [v|] eqn:Ev; [|discriminate].
+      assert (Hno : names_of env g = []) by (unfold names_of; rewrite Eg; reflexivity).
+      rewrite Hno in HN. cbn [app] in HN.
+      destruct (serve D env seen more (keys_out N rest)) as [vs|] eqn:Es; [|discriminate].
+      destruct Hfd as [<-|Hfd].
+      + rewrite Eg, Ev. discriminate.
+      + apply (IH (fun x Hx => Hshape x (or_intror Hx)) Hn2 N HN); [rewrite Es; reflexivity|exact Hfd].
+  Qed.
+
+  Theorem mixed_struct_accepted fields m :
+    let own := filter (fun fd => negb (f_flatten fd)) fields in
+    NoDup (map field_wire own) -> NoDup (map f_ident own) -> NoDup (map fst m) ->
+    (forall fd, In fd fields -> flat_plain fd) ->
+    NoDup (flat_map (names_of env) fields) ->
+    is_some (deser_struct D Dh env fields m) = true ->
+    (forall fd, In fd own ->
+       match obj_get (field_wire fd) m with
+       | Some v => deser_field D Dh fd v <> None
+       | None => field_value [] fd <> None
+       end) /\
+    (forall fd, In fd fields -> f_flatten fd = true ->
+       forall n a b c tf, strip_box (f_ty fd) = RNamed n -> find_item n env = Some (IStruct a b c tf) ->
+         is_some (D (RNamed n) (JObj (keys_in (map field_wire tf) (filter (not_own own) m)))) = true).
+  Proof.
+    intros own Hw Hi Hnd Hshape Hnames Hacc. unfold deser_struct in Hacc. fold own in Hacc.
+    destruct (claim (deser_field D Dh) own m [] []) as [[seen rest]|] eqn:Ec; [|discriminate].
+    assert (Hdv : forall k v f, In (k, v) m -> find_field k own = Some f -> exists x, deser_field D Dh f v = Some x).
+    { intros k v f Hin Ef. destruct (deser_field D Dh f v) as [x|] eqn:Ed; [exists x; reflexivity|].
+      rewrite (claim_value_error (deser_field D Dh) own m [] [] k v f Hnd Hin Ef Ed) in Ec. discriminate. }
+    destruct (claim_ok (deser_field D Dh) own Hw Hi m Hnd Hdv) as [seen0 [Hc Hs]].
+    rewrite Hc in Ec. inversion Ec; subst seen rest. clear Ec.
+    rewrite is_some_option_map in Hacc. rewrite <- (keys_out_nil (filter (not_own own) m)) in Hacc.
+    pose proof (serve_mixed_inv seen0 (filter (not_own own) m) fields Hshape Hnames [] (fun k _ X => X) Hacc) as Hinv.
+    split.
+    - intros fd Hfd. pose proof Hfd as Hfd0. unfold own in Hfd. apply filter_In in Hfd. destruct Hfd as [Hff Hfp].
+      apply negb_true_iff in Hfp. specialize (Hinv fd Hff). rewrite Hfp in Hinv.
+      unfold field_value in Hinv. rewrite (Hs fd Hfd0) in Hinv.
+      destruct (obj_get (field_wire fd) m) as [v|] eqn:Eg.
+      + destruct (find_field (field_wire fd) own) as [f|] eqn:Ef.
+        * destruct (find_field_some _ _ _ Ef) as [Hfin Hfw].
+          assert (f = fd) by (apply (nodup_map_inj field_wire own); auto). subst f.
+          destruct (Hdv _ v fd (obj_get_in m _ _ Eg) Ef) as [x Hx]. rewrite Hx. discriminate.
+        * exfalso. exact (find_field_none _ _ Ef fd Hfd0 eq_refl).
+      + unfold field_value. cbn [assoc]. exact Hinv.
+    - intros fd Hfd Hfl. specialize (Hinv fd Hfd). rewrite Hfl in Hinv. exact Hinv.
+  Qed.
+End MixedStructSound.
+
 (* internally tagged enum, soundness direction *)
 Lemma tagged_accepted (D : rtype -> json -> option rvalue) tag variants (m : list (string * json)) :
   NoDup (map fst m) -> is_some (deser_tagged D tag variants m) = true ->
@@ -853,12 +937,169 @@ Section ExactCompose.
         rewrite Hflatex in Hacc. discriminate.
   Qed.
 
-  Theorem sel_exact : forall fuel, Exact (sel_need s henv env fuel).
+
+  Lemma lstr_eqb_eq a b : lstr_eqb a b = true -> a = b.
+  Proof.
+    revert b. induction a as [|x r IH]; intros [|y t0] H; cbn in H; try discriminate; [reflexivity|].
+    apply andb_true_iff in H. destruct H as [H1 H2]. apply String.eqb_eq in H1. f_equal; [exact H1|exact (IH _ H2)].
+  Qed.
+
+  Lemma objs_exact rec : Exact rec ->
+    forall name t sels B, find_kind_sdl s t = Some KObject -> has_spread sels = true ->
+      objs_need s frags henv env rec name t sels = Some B ->
+      (forall F, deser henv F env (RNamed name) JNull = None) /\
+      (forall F m fw, UK (JObj m) -> is_some (deser henv F env (RNamed name) (JObj m)) = true -> wpos s frags other fw t sels m = true) /\
+      (forall F j, is_some (deser henv F env (RNamed name) j) = true ->
+         match j with JObj _ => True | JArr _ => find_kind_sdl s t = Some KObject | _ => False end).
+  Proof.
+    intros Hrec name t sels B Ek Hsp H. unfold objs_need in H.
+    set (msels := filter (fun x => match x with SField _ _ _ => not_typename x | _ => true end) sels) in *.
+    match type of H with (if negb ?c then _ else _) = _ => destruct c eqn:EC; [|discriminate] end. cbn [negb] in H.
+    apply andb_true_iff in EC; destruct EC as [EC Hprim]. apply negb_true_iff in Hprim.
+    apply andb_true_iff in EC; destruct EC as [EC Hnd]. apply nodup_str_NoDup in Hnd.
+    apply andb_true_iff in EC; destruct EC as [Hshape Hsn]. apply nodup_str_NoDup in Hsn.
+    destruct (find_item name env) as [[nm d c fields| | | | | | | |]|] eqn:Ef; try discriminate.
+    set (own := filter (fun fd => negb (f_flatten fd)) fields) in *.
+    match type of H with (if negb ?c then _ else _) = _ => destruct c eqn:EC2; [|discriminate] end. cbn [negb] in H.
+    apply andb_true_iff in EC2; destruct EC2 as [EC2 Hlen]. apply Nat.eqb_eq in Hlen.
+    apply andb_true_iff in EC2; destruct EC2 as [Hw Hi]. apply nodup_str_NoDup in Hw. apply nodup_str_NoDup in Hi.
+    destruct (map_opt (fun p => smember_need s frags henv env rec t (fst p) (snd p)) (combine fields msels)) as [needs|] eqn:Em; [|discriminate].
+    clear H.
+    assert (Hpair : forall fd x, In (fd, x) (combine fields msels) -> exists nd, smember_need s frags henv env rec t fd x = Some nd).
+    { intros fd x Hx. destruct (map_opt_in _ _ _ _ Em Hx) as [nd [Hpn _]]. exists nd. exact Hpn. }
+    assert (Hmsel : forall x, In x msels -> In x sels).
+    { intros x Hx. unfold msels in Hx. apply filter_In in Hx. exact (proj1 Hx). }
+    (* what a spread member looks like *)
+    assert (Hspread : forall fd n, In (fd, SSpread n) (combine fields msels) ->
+              exists fsel a0 b0 c0 tf nd, frag_fields frags t n = Some fsel /\ f_flatten fd = true /\ strip_box (f_ty fd) = RNamed n /\
+                find_item n env = Some (IStruct a0 b0 c0 tf) /\ existsb f_flatten tf = false /\
+                map field_wire tf = map (fun y => fst (sel_entry y)) fsel /\ rec n t fsel = Some nd).
+    { intros fd n Hx. destruct (Hpair fd _ Hx) as [nd Hpn]. unfold smember_need in Hpn.
+      destruct (frag_fields frags t n) as [fsel|] eqn:Eff; [|discriminate].
+      destruct (strip_box (f_ty fd)) as [n'| | | |] eqn:Est; try discriminate.
+      destruct (find_item n env) as [[a0 b0 c0 tf| | | | | | | |]|] eqn:Efn; try discriminate.
+      match type of Hpn with (if ?c then _ else _) = _ => destruct c eqn:EC3; [|discriminate] end.
+      apply andb_true_iff in EC3; destruct EC3 as [EC3 Hwires]. apply andb_true_iff in EC3; destruct EC3 as [EC3 Hnf].
+      apply andb_true_iff in EC3; destruct EC3 as [Hfl Hnn]. apply String.eqb_eq in Hnn. subst n'. apply negb_true_iff in Hnf.
+      destruct fsel as [|y0 fs0] eqn:Efs; [discriminate|]. rewrite <- Efs in *.
+      exists fsel, a0, b0, c0, tf, nd. repeat split; try assumption; try reflexivity. exact (lstr_eqb_eq _ _ Hwires). }
+    assert (Hfieldm : forall fd a n sb, In (fd, SField a n sb) (combine fields msels) ->
+              f_flatten fd = false /\ exists nd, pair_need s henv env rec t fd (SField a n sb) = Some nd).
+    { intros fd a n sb Hx. destruct (Hpair fd _ Hx) as [nd Hpn]. unfold smember_need in Hpn.
+      destruct (f_flatten fd); [discriminate|]. split; [reflexivity|exists nd; exact Hpn]. }
+    assert (Hshape_fd : forall fd, In fd fields -> flat_plain env fd).
+    { intros fd Hfd Hfl. destruct (in_combine_exists fields msels fd Hlen Hfd) as [x Hx].
+      destruct x as [a n sb| |n].
+      - destruct (Hfieldm fd a n sb Hx) as [E _]. congruence.
+      - destruct (Hpair fd _ Hx) as [nd Hpn]. discriminate.
+      - destruct (Hspread fd n Hx) as [fsel [a0 [b0 [c0 [tf [nd [_ [_ [Hst [Hfi [Hnf _]]]]]]]]]]].
+        exists n, a0, b0, c0, tf. repeat split; assumption. }
+    assert (Hnames : flat_map (names_of env) fields =
+              flat_map (fun x => match x with
+                                 | SSpread n => match frag_fields frags t n with
+                                                | Some fsel => map fst (map sel_entry fsel) | None => [] end
+                                 | _ => [] end) msels).
+    { clear -Hfieldm Hspread Hpair Hlen. revert Hfieldm Hspread Hpair Hlen. generalize msels.
+      induction fields as [|fd r IH]; intros [|x ms] Hfm Hs Hp Hl; try discriminate; [reflexivity|].
+      cbn [flat_map]. f_equal.
+      - destruct x as [a n sb| |n].
+        + destruct (Hfm fd a n sb (or_introl eq_refl)) as [E _]. unfold names_of. rewrite E. reflexivity.
+        + destruct (Hp fd _ (or_introl eq_refl)) as [nd Hpn]. discriminate.
+        + destruct (Hs fd n (or_introl eq_refl)) as [fsel [a0 [b0 [c0 [tf [nd [Eff [Hfl [Hst [Hfi [_ [Hwr _]]]]]]]]]]]].
+          unfold names_of. rewrite Hfl, Hst, Hfi, Eff, map_map. exact Hwr.
+      - apply IH; [intros g a n sb Hg; apply Hfm; right; exact Hg|intros g n Hg; apply Hs; right; exact Hg|
+                   intros g y Hg; apply Hp; right; exact Hg|exact (f_equal pred Hl)]. }
+    assert (Hnamesnd : NoDup (flat_map (names_of env) fields)).
+    { rewrite Hnames. unfold msels.
+      apply (nodup_flat_map_sub (fun x => map fst (match x with
+                       | SField _ _ _ => [sel_entry x]
+                       | SSpread n0 => match frag_fields frags t n0 with Some fsel0 => map sel_entry fsel0 | None => [] end
+                       | _ => [] end))).
+      - unfold sentries in Hnd. clear -Hnd. revert Hnd. generalize sels. induction sels0 as [|x r IH]; intros H; [constructor|].
+        cbn [flat_map] in *. rewrite map_app in H. apply NoDup_app_iff in H. destruct H as [H1 [H2 H3]].
+        apply NoDup_app_iff. split; [exact H1|]. split; [exact (IH H2)|].
+        intros k Hk Hin. apply (H3 k Hk). clear -Hin. induction r as [|y r' IHr]; [destruct Hin|].
+        cbn [flat_map] in *. rewrite map_app. apply in_app_or in Hin. apply in_or_app. destruct Hin as [Hin|Hin]; [left; exact Hin|right; exact (IHr Hin)].
+      - intros x. destruct x as [a n sb| |n]; [right; reflexivity|right; reflexivity|].
+        destruct (frag_fields frags t n); [left; reflexivity|left; reflexivity]. }
+    assert (Hflatex : existsb f_flatten fields = true).
+    { unfold has_spread in Hsp. apply existsb_exists in Hsp. destruct Hsp as [x [Hx Hxs]]. destruct x as [| |n]; try discriminate.
+      assert (Hxm : In (SSpread n) msels) by (unfold msels; apply filter_In; split; [exact Hx|reflexivity]).
+      destruct (in_combine_exists_r fields msels _ Hlen Hxm) as [fd Hfd].
+      destruct (Hspread fd n Hfd) as [_ [_ [_ [_ [_ [_ [_ [Hfl _]]]]]]]].
+      apply existsb_exists. exists fd. split; [exact (in_combine_l _ _ _ _ Hfd)|exact Hfl]. }
+    split; [|split].
+    - intros [|F]; [reflexivity|]. cbn [deser]. rewrite (prim_deser_none name JNull Hprim), Ef. reflexivity.
+    - intros F m fw Huk Hacc. unfold wpos. rewrite Ek.
+      destruct fw as [|fw]; [reflexivity|]. cbn [wobj].
+      assert (Hcoll : collected s frags t sels = sentries frags t sels).
+      { unfold collected. destruct (List.length frags) as [|lf] eqn:Elf.
+        - exfalso. destruct frags; [|discriminate]. unfold has_spread in Hsp. apply existsb_exists in Hsp.
+          destruct Hsp as [x [Hx Hxs]]. destruct x as [| |n]; try discriminate.
+          rewrite forallb_forall in Hshape. specialize (Hshape _ Hx). cbn in Hshape. discriminate.
+        - rewrite (collect_spreads s frags lf t Ek sels [] Hshape Hsn (fun n _ X => X)). cbn [fst].
+          apply merge_fields_nodup. exact Hnd. }
+      rewrite Hcoll.
+      destruct F as [|F]; [discriminate|]. cbn [deser] in Hacc. rewrite (prim_deser_none name (JObj m) Hprim), Ef in Hacc.
+      destruct (UK_obj m Huk) as [Hmnd _].
+      destruct (mixed_struct_accepted (deser henv F env) (deser henv F henv) env fields m Hw Hi Hmnd Hshape_fd Hnamesnd Hacc) as [Hown Hflat].
+      fold own in Hown, Hflat.
+      apply forallb_forall. intros e He. unfold sentries in He. apply in_flat_map in He. destruct He as [x [Hx Hex]].
+      destruct x as [a n sb| |n]; try contradiction.
+      + destruct Hex as [<-|[]]. destruct (String.eqb n "__typename") eqn:En.
+        * cbn [sel_entry]. unfold wfield_ok. rewrite En. reflexivity.
+        * assert (Hxm : In (SField a n sb) msels).
+          { unfold msels. apply filter_In. split; [exact Hx|]. unfold not_typename. cbn [sel_entry fst snd]. rewrite En. reflexivity. }
+          destruct (in_combine_exists_r fields msels _ Hlen Hxm) as [fd Hfd].
+          destruct (Hfieldm fd a n sb Hfd) as [Hnfl [nd Hpn]].
+          apply (member_sound rec Hrec t t fd a n sb nd fw F m Hpn En eq_refl Huk).
+          apply Hown. unfold own. apply filter_In. split; [exact (in_combine_l _ _ _ _ Hfd)|rewrite Hnfl; reflexivity].
+      + assert (Hxm : In (SSpread n) msels) by (unfold msels; apply filter_In; split; [exact Hx|reflexivity]).
+        destruct (in_combine_exists_r fields msels _ Hlen Hxm) as [fd Hfd].
+        destruct (Hspread fd n Hfd) as [fsel [a0 [b0 [c0 [tf [nd [Eff [Hfl [Hst [Hfi [Hnf [Hwr Hrn]]]]]]]]]]]].
+        rewrite Eff in Hex. apply in_map_iff in Hex. destruct Hex as [y [<- Hy]].
+        pose proof (Hflat fd (in_combine_l _ _ _ _ Hfd) Hfl n a0 b0 c0 tf Hst Hfi) as Hd.
+        destruct (Hrec n t fsel nd Hrn) as [_ [Hobj _]].
+        set (content := keys_in (map field_wire tf) (filter (not_own own) m)) in *.
+        assert (Hukc : UK (JObj content)) by (unfold content, keys_in; apply UK_filter; apply UK_filter; exact Huk).
+        pose proof (Hobj F content (S fw) Hukc Hd) as Hwc. unfold wpos in Hwc. rewrite Ek in Hwc. cbn [wobj] in Hwc.
+        destruct (frag_fields_some frags t n fsel Eff) as [cc [Hac [_ [Hffl Hfnt]]]].
+        assert (Hndf : NoDup (map (fun x0 => fst (sel_entry x0)) fsel)).
+        { unfold sentries in Hnd.
+          pose proof (flat_map_seg_nodup (fun x0 => match x0 with
+                         | SField _ _ _ => [sel_entry x0]
+                         | SSpread n0 => match frag_fields frags t n0 with Some fsel0 => map sel_entry fsel0 | None => [] end
+                         | _ => [] end) sels (SSpread n) Hnd Hx) as H0.
+          cbn beta iota in H0. rewrite Eff, map_map in H0. exact H0. }
+        rewrite (collected_plain s frags t fsel Hffl Hndf) in Hwc. rewrite forallb_forall in Hwc.
+        specialize (Hwc (sel_entry y) (in_map sel_entry _ _ Hy)).
+        rewrite <- Hwc. apply wfield_ok_ext. unfold content, keys_in. rewrite obj_get_filter.
+        * rewrite obj_get_filter; [reflexivity|].
+          intros v. unfold not_own. cbn [fst]. rewrite find_field_absent; [reflexivity|].
+          intros g Hg Hgw. unfold own in Hg. apply filter_In in Hg. destruct Hg as [Hgf Hgp]. apply negb_true_iff in Hgp.
+          destruct (in_combine_exists fields msels g Hlen Hgf) as [x2 Hx2].
+          destruct x2 as [a2 n2 sb2| |n2].
+          -- destruct (Hfieldm g a2 n2 sb2 Hx2) as [_ [nd2 Hpn2]]. unfold pair_need in Hpn2.
+             destruct (String.eqb_spec (field_wire g) (response_key a2 n2)) as [Hwk|]; [|discriminate].
+             unfold sentries in Hnd.
+             apply (flat_map_keys_disjoint _ sels (SSpread n) (SField a2 n2 sb2) (sel_entry y) (sel_entry (SField a2 n2 sb2)) Hnd Hx
+                      (Hmsel _ (in_combine_r _ _ _ _ Hx2))); [discriminate| |left; reflexivity|].
+             ++ cbn beta iota. rewrite Eff. apply in_map. exact Hy.
+             ++ cbn [sel_entry fst]. rewrite <- Hwk, Hgw. reflexivity.
+          -- destruct (Hpair g _ Hx2) as [nd2 Hpn2]. discriminate.
+          -- destruct (Hspread g n2 Hx2) as [_ [_ [_ [_ [_ [_ [_ [Hfl2 _]]]]]]]]. congruence.
+        * intros v. cbn [fst]. apply mem_str_In. rewrite Hwr. apply in_map_iff. exists y. split; [reflexivity|exact Hy].
+    - intros F j Hacc. destruct F as [|F]; [discriminate|]. cbn [deser] in Hacc.
+      rewrite (prim_deser_none name j Hprim), Ef in Hacc. destruct j; try discriminate; [|exact I].
+      rewrite Hflatex in Hacc. discriminate.
+  Qed.
+
+  Theorem sel_exact : forall fuel, Exact (sel_need s frags henv env fuel).
   Proof.
     induction fuel as [|f IH]; intros name t sels B H; [discriminate|].
     cbn [sel_need] in H. remember (find_kind_sdl s t) as k eqn:Ek in H. symmetry in Ek.
     destruct k as [[| | | | |]|]; try discriminate.
-    - exact (obj_exact _ IH name t sels B Ek H).
+    - destruct (has_spread sels) eqn:Ehs; [exact (objs_exact _ IH name t sels B Ek Ehs H)|exact (obj_exact _ IH name t sels B Ek H)].
     - apply (abs_exact _ IH name t sels B); [rewrite Ek; exact I|exact H].
     - apply (abs_exact _ IH name t sels B); [rewrite Ek; exact I|exact H].
   Qed.
